@@ -107,6 +107,20 @@ CHECKS = {
             "runs) with the affine images and a constant carried as components of one model: moment transformation laws in every state.",
             "Normal on a finite box: laws hold up to the mass deficit of the box; midpoint law for intervals of mass >= 2^-10.",
             "exhaustive tree enumeration + explicit-state BFS over decision histories"),
+    "C16": ("DESIGN.md 2/C16",
+            "Complete lattice of component grids (uniform level vectors d<=3; every refinement tree of depth<=3 in 1D, pairs of trees in 2D) "
+            "x lambda x mass lumping x analytic/numeric x labelling; per grid EVERY single-sample data set of a lattice containing grid "
+            "lines, cell interiors and the boundary plus all two-sample sets (linearity of the right-hand side): R == exact Gram + lambda I, "
+            "b == sample mean of independently evaluated hats, hat variants agree, surpluses == reference solve + normalisation, "
+            "combined density == reference.",
+            "data in the unit cube; lumped form accepted with or without lambda; numeric entries 1e-9.",
+            "exhaustive input lattice, exact reference matrices"),
+    "C17": ("DESIGN.md 2/C17",
+            "Lock-step exploration: every refinement-decision history (BFS, scripted estimator, real loop) and every uniform combination is "
+            "executed on 6 real instances (reuse on/off x size threshold 200/0/8 via the guarded hook) plus natural-size grids (>=200 "
+            "points) without the hook; surpluses, scheme and interpolated densities compared with the reuse-off instance.",
+            "Known finding: the right-hand-side reuse branch is not transparent. Hook: GridOperation._verif_threshold.",
+            "explicit-state BFS over decision histories, differential (lock-step) oracle"),
     "C18": ("DESIGN.md 2/C18",
             "Every operation sequence of depth 4 (thorough 5) over a 21-operation alphabet (scalings with/without override, factors, "
             "shifts, revert, explorer-chosen shuffle permutations, boundary move, the three splits followed by concatenation, in-range / "
